@@ -418,6 +418,9 @@ func main() {
 		root = filepath.Join(vcommon.Dir(), ".work", fmt.Sprintf("wal-%d", os.Getpid()))
 	}
 	defer os.RemoveAll(root)
+	if !vcommon.Thorough() {
+		alphabet = []string{"aS1", "aS2", "aB2", "rot", "close", "purge2", "purge3", "reopen"}
+	}
 	// enumerate all sequences up to depth
 	var hists [][]string
 	var rec func(cur []string)
@@ -526,7 +529,7 @@ func main() {
 	chk.Set("crash_images", st.crashImages.Load())
 	chk.Set("depth", depth)
 	chk.Set("exhaustive", chk.Violations() == 0)
-	chk.Set("rule", "all operation sequences over {append small (epoch 1,2,3), append 600 KiB (epoch 2), rotate, close, purge(2), purge(3), reopen} up to the depth, plus three long rotating histories, on the real WriteAheadLog in /dev/shm; All() is compared with the reference list of acknowledged, unpurged entries after every step (set equality, per-file order, purge conservative and complete by directory listing); for every history ending in an append, every byte offset of that append (big entries: quick first/last 32 offsets and 8 evenly spaced; thorough first/last 1024 and every 40009th) is materialised as a torn file, recovered, read, continued (append, reopen, append, purge, reopen) and compared again")
+	chk.Set("rule", "all operation sequences over {append small (epoch 1,2; thorough also 3), append 600 KiB (epoch 2), rotate, close, purge(2), purge(3), reopen} up to the depth, plus three long rotating histories, on the real WriteAheadLog in /dev/shm; All() is compared with the reference list of acknowledged, unpurged entries after every step (set equality, per-file order, purge conservative and complete by directory listing); for every history ending in an append, every byte offset of that append (big entries: quick first/last 32 offsets and 8 evenly spaced; thorough first/last 1024 and every 40009th) is materialised as a torn file, recovered, read, continued (append, reopen, append, purge, reopen) and compared again")
 	_ = os.RemoveAll(root)
 	chk.Assume("a crash tears only the final write; directory entries of created files survive; file names (wall clock) are opaque and cross-file order is not asserted")
 	chk.Finish()
